@@ -10,9 +10,12 @@
                                back into the tracker are outside the model.
    env_ok env                  iterating the set visits exactly its elements (all that is assumed of `e_iter`).
    reachable_any nattrs st     st is the state after ANY history (updates with arbitrary, also out-of-order, timestamps,
-                               pops, cleanups at arbitrary clock values, callback registration), in either mode, with any
-                               TTL, WHATEVER the subscribers did -- including operations left by their exceptions (each
-                               operation with an environment that satisfies env_ok).
+                               pops, cleanups at arbitrary clock values, callback registration, assignments of a new TTL
+                               to `tracker.ttl_in_seconds` (OpSetTtl), `tracker.stream_is_ordered = False` (OpUnordered)),
+                               starting in either mode with any TTL, WHATEVER the subscribers did -- including operations
+                               left by their exceptions (each operation with an environment that satisfies env_ok).
+   t_ttl st = Some T           T is the TTL in force when the operation in question starts (cleanup() reads
+                               `self.ttl_in_seconds` afresh on every call; there is no derived deadline that could go stale).
    rc_exn res = None           the operation returned normally.
    sp_ttl_ok T now remaining removed (Spec/TrackerSpec.v): every remaining track has now - last_updated < T and every
                                track handed to a DELETED callback during the operation had T <= now - last_updated. *)
@@ -56,12 +59,21 @@ Theorem C13_no_ttl_no_expiry : forall (V : Type) (nattrs : nat) (env : trk_env V
 Proof. exact (fun V => @no_ttl_no_expiry_c V). Qed.
 Print Assumptions C13_no_ttl_no_expiry.
 
-(* The TTL and the mode are fixed at construction: no operation changes them. *)
+(* The TTL and the mode change only when the history says so: sp_ttl_after ttl op = the TTL assigned if op is OpSetTtl,
+   ttl otherwise; sp_mode ordered op = false if op is OpUnordered, ordered otherwise (Spec/TrackerSpec.v). *)
 Theorem C13_configuration_constant : forall (V : Type) (nattrs : nat) (env : trk_env V) (st : trk_tracker V) (op : trk_op V),
   reachable_any nattrs st ->
-  t_ordered (rc_state (trkc_step nattrs env st op)) = t_ordered st /\ t_ttl (rc_state (trkc_step nattrs env st op)) = t_ttl st.
+  t_ordered (rc_state (trkc_step nattrs env st op)) = sp_mode (t_ordered st) (abs_op op) /\
+  t_ttl (rc_state (trkc_step nattrs env st op)) = sp_ttl_after (t_ttl st) (abs_op op).
 Proof. exact (fun V => @step_cfg_reachable_c V). Qed.
 Print Assumptions C13_configuration_constant.
+
+(* ... and the two configuration operations do nothing else: no call, no delivery, the table and the cache untouched. *)
+Theorem C13_configuration_operations : forall (V : Type) (nattrs : nat) (env : trk_env V) (st : trk_tracker V) (ttl : option Z),
+  trkc_step nattrs env st (OpSetTtl ttl) = mkCResult (with_ttl st ttl) [] [] None None /\
+  trkc_step nattrs env st OpUnordered = mkCResult (with_ordered st false) [] [] None None.
+Proof. exact (fun V nattrs env st ttl => conj eq_refl eq_refl). Qed.
+Print Assumptions C13_configuration_operations.
 
 (* The invariants behind it, in EVERY state: one entry per MMSI, keyed by the track's own MMSI; the cached
    oldest_timestamp is a lower bound of every last_updated; in ordered mode the table is sorted by last_updated. *)
@@ -177,4 +189,24 @@ Example C13_nonvacuous_aborted_cleanup :
   rc_exn res = Some (Py ValueError) /\ map (@tr_mmsi Z) (trk_tracks (rc_state res)) = [333] /\
   deleted_lus (rc_calls res) = [0; 1] /\ t_oldest (rc_state res) = Some 0 /\
   trk_tracks (rc_state (trkc_step 1 en (rc_state res) (OpCleanup 30))) = [].
+Proof. vm_compute. repeat split. Qed.
+
+(* non-vacuity 4: the TTL is changed during the history.  ttl 40: three vessels at 0, 4, 8; at t=20 nothing is due.
+   `tracker.ttl_in_seconds = 12` (OpSetTtl): cleanup() at the same instant t=20 removes 111 (age 20) and 222 (age 16)
+   and keeps 333 (age 11).  Then `tracker.ttl_in_seconds = None`: nothing expires any more, however late. *)
+Example C13_nonvacuous_ttl_changed :
+  let q := @trk_env_quiet Z in
+  let h := [(q, OpUpdate 8 (mkMsg 111 [MPresent (Some 1)]) (Some 0));
+            (q, OpUpdate 8 (mkMsg 222 [MPresent (Some 2)]) (Some 4));
+            (q, OpUpdate 8 (mkMsg 333 [MPresent (Some 3)]) (Some 9));
+            (q, OpCleanup 20)] in
+  let st := fst (trkc_run 1 (trk_init (Some 40) false) h) in
+  let st1 := rc_state (trkc_step 1 q st (OpSetTtl (Some 12))) in
+  let res := trkc_step 1 q st1 (OpCleanup 20) in
+  let st2 := rc_state (trkc_step 1 q (rc_state res) (OpSetTtl None)) in
+  let res2 := trkc_step 1 q st2 (OpCleanup 1000) in
+  map (@tr_mmsi Z) (trk_tracks st) = [111; 222; 333] /\ t_ttl st1 = Some 12 /\
+  map (@tr_mmsi Z) (trk_tracks (rc_state res)) = [333] /\ deleted_lus (rc_calls res) = [0; 4] /\
+  sp_ttl_okb 12 20 (map (@tr_lu Z) (trk_tracks (rc_state res))) (deleted_lus (rc_calls res)) = true /\
+  map (@tr_mmsi Z) (trk_tracks (rc_state res2)) = [333] /\ rc_calls res2 = [].
 Proof. vm_compute. repeat split. Qed.
